@@ -19,6 +19,7 @@ import (
 	"fmt"
 	"os"
 	"path/filepath"
+	"runtime"
 	"sort"
 	"strings"
 	"sync"
@@ -43,6 +44,14 @@ type Case struct {
 	K2    int    `json:"k2"`     // second crash at the k2-th mutating operation of the restarted process (0 = none)
 	Store string `json:"store"`  // block lister of the store gateway: concurrent | recursive
 	Comp  string `json:"lister"` // block lister of the compactor
+	// R > 0 (then K = 0): die at the R-th read crash point of the cycle instead of at a mutating operation. A read
+	// crash point is a bucket READ (get, iter, exists, attributes) before which the compactor's local work
+	// directory <data-dir>/compact differs from what it was at the previous bucket operation (a source block file
+	// was written, the compacted block was written, the group directory was removed): the crash states "between
+	// two mutating bucket operations" that differ in what is on the local disk.
+	R int `json:"r,omitempty"`
+	// R2 > 0 (then K2 = 0): second crash at the R2-th read crash point of the restarted process.
+	R2 int `json:"r2,omitempty"`
 }
 
 const (
@@ -187,6 +196,55 @@ type snap struct {
 	lastMut time.Duration
 	roles   map[string]string
 	nnew    int
+	key     string // crash state key: "<mutating operations applied>|<work dir signature>"
+	work    string // short description of the compaction work dir (read crash points)
+	partial bool   // some source block of the work dir is complete (has its index) and some block dir is not
+}
+
+// workSig is the signature of the compactor's work directory <data-dir>/compact: relative paths and sizes.
+func workSig(dataDir string) string {
+	var sb strings.Builder
+	root := filepath.Join(dataDir, "compact")
+	_ = filepath.Walk(root, func(p string, fi os.FileInfo, err error) error {
+		if err != nil || p == root {
+			return nil
+		}
+		rel, _ := filepath.Rel(root, p)
+		if fi.IsDir() {
+			fmt.Fprintf(&sb, "%s/;", rel)
+		} else {
+			fmt.Fprintf(&sb, "%s:%d;", rel, fi.Size())
+		}
+		return nil
+	})
+	return sb.String()
+}
+
+// workState describes the block directories of the work dir: which are complete (meta.json, index and a chunk
+// segment are there), by role.
+func (h *hist) workState(dataDir string) (desc string, partial bool) {
+	groups, _ := os.ReadDir(filepath.Join(dataDir, "compact"))
+	var full, part []string
+	for _, g := range groups {
+		ents, _ := os.ReadDir(filepath.Join(dataDir, "compact", g.Name()))
+		for _, e := range ents {
+			if !e.IsDir() || !blockDir(e.Name()) {
+				continue
+			}
+			bd := filepath.Join(dataDir, "compact", g.Name(), e.Name())
+			_, e1 := os.Stat(filepath.Join(bd, block.MetaFilename))
+			_, e2 := os.Stat(filepath.Join(bd, block.IndexFilename))
+			segs, _ := os.ReadDir(filepath.Join(bd, block.ChunksDirname))
+			if e1 == nil && e2 == nil && len(segs) > 0 {
+				full = append(full, h.canon(e.Name()))
+			} else {
+				part = append(part, h.canon(e.Name()))
+			}
+		}
+	}
+	sort.Strings(full)
+	sort.Strings(part)
+	return fmt.Sprintf("complete=%v incomplete=%v", full, part), len(full) > 0 && len(part) > 0
 }
 
 type hist struct {
@@ -250,6 +308,32 @@ type proc struct {
 	comp     *rig.Compactor
 	dir      string
 	diskSnap string // data dir at the instant of an injected death
+
+	// read crash points (tracked only when asked)
+	lastKey string
+	rkeys   []string        // state key of every read crash point
+	mkeys   map[string]bool // state keys of the crash states before every mutating operation
+}
+
+// startOpt says where a process dies and what is recorded.
+type startOpt struct {
+	dieAtMut  int     // die at this mutating operation (vcrash.DieAtMut)
+	dieAtRead int     // die at this read crash point
+	record    *[]snap // append the crash state before every mutating operation
+	rrecord   *[]snap // append the crash state at every read crash point
+	track     bool    // only count the read crash points
+}
+
+// readPoints returns the 1-based indices of the read crash points whose state (mutating operations applied, work
+// dir) is not also the crash state of a mutating operation.
+func (p *proc) readPoints() []int {
+	var out []int
+	for i, k := range p.rkeys {
+		if !p.mkeys[k] {
+			out = append(out, i+1)
+		}
+	}
+	return out
 }
 
 func copyDir(src, dst string) error {
@@ -283,32 +367,47 @@ func modTimes(b *vcrash.Bucket, objs map[string][]byte) map[string]time.Time {
 	return out
 }
 
-// start creates a compactor process on bucket b and data dir dir. With dieAt > 0 the process dies at its
-// dieAt-th mutating operation (vcrash.DieAtMut). With record != nil a snapshot of the world is appended before
-// every mutating operation (the state a crash at that operation leaves).
-func (h *hist) start(b *vcrash.Bucket, dir string, dieAt int, record *[]snap) *proc {
-	p := &proc{h: h, b: b, dir: dir}
+// takeSnap copies the world as it is now: the state a crash right now leaves.
+func (h *hist) takeSnap(b *vcrash.Bucket, dir, op, diskName, key string) snap {
+	objs := b.Objects()
+	sn := snap{op: op, objs: objs, mod: modTimes(b, objs), at: time.Since(h.epoch),
+		disk: filepath.Join(h.tmp, diskName), roles: map[string]string{}, key: key}
+	if err := copyDir(dir, sn.disk); err != nil {
+		h.t.Errorf("HARNESS-ERROR disk snapshot: %v", err)
+	}
+	sn.work, sn.partial = h.workState(dir)
+	h.mu.Lock()
+	for k, v := range h.roles {
+		sn.roles[k] = v
+	}
+	sn.nnew = h.nnew
+	sn.lastMut = h.lastMut.Sub(h.epoch)
+	h.mu.Unlock()
+	return sn
+}
+
+// start creates a compactor process on bucket b and data dir dir. With o.dieAtMut > 0 the process dies at that
+// mutating operation (vcrash.DieAtMut), with o.dieAtRead > 0 at that read crash point (rig.Bkt.BeforeRead). With
+// o.record / o.rrecord a snapshot of the world is appended before every mutating operation / at every read crash
+// point (the state a crash at that operation leaves).
+func (h *hist) start(b *vcrash.Bucket, dir string, o startOpt) *proc {
+	p := &proc{h: h, b: b, dir: dir, mkeys: map[string]bool{}}
+	dieAt := o.dieAtMut
+	track := o.track || o.rrecord != nil || o.dieAtRead > 0
 	b.DieAtMut = dieAt
 	p.bkt = rig.NewBkt(b)
 	p.bkt.SerialiseDeletes = true
 	p.bkt.HoldExistsDuringListing = true
 	p.bkt.BeforeMut = func(idx int, kind, name string) {
 		cn := h.canon(name)
-		if record != nil {
-			objs := b.Objects()
-			sn := snap{op: kind + " " + cn, objs: objs, mod: modTimes(b, objs), at: time.Since(h.epoch),
-				disk: filepath.Join(h.tmp, fmt.Sprintf("disk-%03d", idx)), roles: map[string]string{}}
-			if err := copyDir(dir, sn.disk); err != nil {
-				h.t.Errorf("HARNESS-ERROR disk snapshot: %v", err)
-			}
-			h.mu.Lock()
-			for k, v := range h.roles {
-				sn.roles[k] = v
-			}
-			sn.nnew = h.nnew
-			sn.lastMut = h.lastMut.Sub(h.epoch)
-			h.mu.Unlock()
-			*record = append(*record, sn)
+		key := ""
+		if track || o.record != nil {
+			key = fmt.Sprintf("%d|%s", idx-1, workSig(dir))
+			p.mkeys[key] = true
+			p.lastKey = key
+		}
+		if o.record != nil {
+			*o.record = append(*o.record, h.takeSnap(b, dir, kind+" "+cn, fmt.Sprintf("disk-%03d", idx), key))
 		}
 		if dieAt > 0 && idx == dieAt {
 			// the process dies here: keep the local disk exactly as it is now
@@ -317,6 +416,34 @@ func (h *hist) start(b *vcrash.Bucket, dir string, dieAt int, record *[]snap) *p
 				h.t.Errorf("HARNESS-ERROR disk snapshot: %v", err)
 			}
 			h.logf("CRASH at %s %s", kind, cn)
+		}
+	}
+	if track {
+		p.bkt.BeforeRead = func(kind, name string) bool {
+			key := fmt.Sprintf("%d|%s", b.MutCount(), workSig(dir))
+			if os.Getenv("VERIF_C29_READS") != "" {
+				fmt.Fprintf(os.Stderr, "READ %s %s new=%v key=%s\n", kind, h.canon(name), key != p.lastKey, key)
+			}
+			if key == p.lastKey {
+				return false
+			}
+			p.lastKey = key
+			p.rkeys = append(p.rkeys, key)
+			n := len(p.rkeys)
+			cn := h.canon(name)
+			if o.rrecord != nil {
+				*o.rrecord = append(*o.rrecord, h.takeSnap(b, dir, kind+" "+cn, fmt.Sprintf("disk-r%03d", n), key))
+			}
+			if o.dieAtRead == n {
+				p.diskSnap = filepath.Join(h.tmp, fmt.Sprintf("disk-at-second-crash-r%d", n))
+				if err := copyDir(dir, p.diskSnap); err != nil {
+					h.t.Errorf("HARNESS-ERROR disk snapshot: %v", err)
+				}
+				work, _ := h.workState(dir)
+				h.logf("CRASH at %s %s (work dir: %s)", kind, cn, work)
+				return true
+			}
+			return false
 		}
 	}
 	p.bkt.After = func(op vcrash.Op) {
@@ -362,8 +489,8 @@ func (h *hist) cycle(p *proc) bool {
 	for i := 1; i <= maxIter; i++ {
 		before := p.b.MutCount()
 		h.logf("iteration")
-		err := p.comp.Iteration(context.Background())
-		if p.b.Dead() {
+		err := h.iteration(p)
+		if p.bkt.Dead() {
 			return false
 		}
 		muts := p.b.MutCount() - before
@@ -383,6 +510,17 @@ func (h *hist) cycle(p *proc) bool {
 		h.sleep(p.b, settle)
 	}
 	return false
+}
+
+// iteration runs one iteration of the compactor main loop; a panic of the code under test is a violation.
+func (h *hist) iteration(p *proc) (err error) {
+	defer func() {
+		if rec := recover(); rec != nil {
+			err = fmt.Errorf("panic: %v", rec)
+			h.r.Violation("compactor-iteration-panicked", fmt.Sprintf("the compactor iteration panicked: %v; history: %s", rec, h.tail(14)), h.c)
+		}
+	}()
+	return p.comp.Iteration(context.Background())
 }
 
 func short(err error) string {
@@ -451,7 +589,7 @@ func (h *hist) check(b *vcrash.Bucket, where string, quiescent bool) {
 	}
 	sort.Strings(have)
 	phase := "during-compaction-cycle"
-	if h.c.K > 0 {
+	if h.c.K > 0 || h.c.R > 0 {
 		phase = "after-crash-restart"
 	}
 	if quiescent {
@@ -478,10 +616,12 @@ type result struct {
 	died2     bool // the restarted process died at K2
 	blocks    int
 	states    int
-	snaps     []snap // reference run only
+	snaps     []snap // reference run only: crash states before every mutating operation
+	rsnaps    []snap // reference run only: crash states at the read crash points (those that are not in snaps)
+	rpts      []int  // read crash points of the (restarted) process, when tracked
 }
 
-func (h *hist) finish(last *vcrash.Bucket, q bool, res *result) {
+func (h *hist) finish(last *vcrash.Bucket, dead, q bool, res *result) {
 	res.quiescent = q
 	if q {
 		h.check(last, "at quiescence", true)
@@ -496,7 +636,7 @@ func (h *hist) finish(last *vcrash.Bucket, q bool, res *result) {
 				}
 			}
 		}
-	} else if !last.Dead() {
+	} else if !dead {
 		h.r.Outcome(h.c.Set + ": no quiescence within " + fmt.Sprint(maxIter) + " iterations")
 		h.r.Note("no quiescence: case %+v history tail: %s", h.c, h.tail(10))
 	}
@@ -522,10 +662,14 @@ func runReference(t *testing.T, r *vlib.R, wi rig.Wiring, w *world, rd *rig.Read
 		h.lastMut = time.Now()
 		h.check(b, "initially", false)
 		h.sleep(b, time.Hour) // past the compactor's consistency delay (30m)
-		p := h.start(b, filepath.Join(base, "data"), 0, &res.snaps)
+		var rs []snap
+		p := h.start(b, filepath.Join(base, "data"), startOpt{record: &res.snaps, rrecord: &rs})
 		q := h.cycle(p)
 		res.muts = b.MutCount()
-		h.finish(b, q, &res)
+		for _, i := range p.readPoints() {
+			res.rsnaps = append(res.rsnaps, rs[i-1])
+		}
+		h.finish(b, false, q, &res)
 	})
 	if leaked {
 		r.Add("runs_with_leaked_goroutines", 1)
@@ -535,7 +679,7 @@ func runReference(t *testing.T, r *vlib.R, wi rig.Wiring, w *world, rd *rig.Read
 
 // runCase restarts a compactor on crash snapshot K of the reference run and runs it to quiescence (with a
 // second crash at K2 if asked).
-func runCase(t *testing.T, r *vlib.R, wi rig.Wiring, w *world, rd *rig.Reader, tmp string, c Case, s snap) (res result) {
+func runCase(t *testing.T, r *vlib.R, wi rig.Wiring, w *world, rd *rig.Reader, tmp string, c Case, s snap, track bool) (res result) {
 	leaked := rig.Bubble(t, func(t *testing.T) {
 		base, err := os.MkdirTemp(tmp, "case-")
 		if err != nil {
@@ -552,8 +696,8 @@ func runCase(t *testing.T, r *vlib.R, wi rig.Wiring, w *world, rd *rig.Reader, t
 		h.logf("... CRASH at %s", s.op)
 		nb := bucketFrom(s.objs, s.mod)
 		disk := s.disk
-		var q bool
-		for gen, dieAt := range []int{c.K2, 0} {
+		var q, dead bool
+		for gen, o := range []startOpt{{dieAtMut: c.K2, dieAtRead: c.R2, track: track}, {}} {
 			h.logf("RESTART after %dm, disk %s", c.Delay, c.Disk)
 			h.check(nb, "at the crash", false)
 			h.sleep(nb, time.Duration(c.Delay)*minute)
@@ -563,19 +707,23 @@ func runCase(t *testing.T, r *vlib.R, wi rig.Wiring, w *world, rd *rig.Reader, t
 					t.Fatalf("HARNESS-ERROR %v", err)
 				}
 			}
-			p := h.start(nb, ndir, dieAt, nil)
+			p := h.start(nb, ndir, o)
 			q = h.cycle(p)
 			if gen == 0 {
 				res.muts = nb.MutCount()
+				res.rpts = p.readPoints()
 			}
-			if !nb.Dead() {
+			if dead = p.bkt.Dead(); !dead {
 				break
 			}
 			res.died2 = true
 			snapObjs := nb.DeathSnapshot()
+			if snapObjs == nil {
+				snapObjs = nb.Objects() // died at a read: nothing was applied afterwards
+			}
 			nb, disk = bucketFrom(snapObjs, modTimes(nb, snapObjs)), p.diskSnap
 		}
-		h.finish(nb, q, &res)
+		h.finish(nb, dead, q, &res)
 	})
 	if leaked {
 		r.Add("runs_with_leaked_goroutines", 1)
@@ -588,13 +736,15 @@ func TestCheck(t *testing.T) {
 	defer r.Finish()
 	wi := rig.CheckWiring(t)
 	r.Set("wiring", wi.Describe())
-	r.Rule("block set x crash point k (every mutating bucket operation of the fault-free cycle) x restart delay {1m, 25h, 49h} x local disk {kept as at the crash, wiped}" +
-		" [thorough: all combinations, recursive listers, more block sets, second crash point k2 at every operation of the restarted process for the 2to1, overlap-vertical, replicas and 4to1 sets]; " +
-		"non-trivial = the restarted process had to change the bucket to finish")
+	r.Rule("block set x crash point (k: every mutating bucket operation of the fault-free cycle | r: every read crash point = bucket read before which the compactor's work dir <data-dir>/compact differs from what it was at the previous bucket operation, i.e. every distinct local-disk state of the download / compact / clean-up phases) x restart delay {1m, 25h, 49h} x local disk {kept as at the crash, wiped}; " +
+		"second level (restart, second crash at every mutating operation k2 of the restarted process, restart on the kept disk, same delay before every restart): quick = the read crash points of set 2to1 that leave a partly downloaded plan, delay 25h" +
+		" [thorough: all combinations, recursive listers, more block sets, second crash at every operation k2 of the restarted process for the 2to1, overlap-vertical, replicas and 4to1 sets with delay 1m (and 25h after read crash points and for 2to1), and at every read crash point r2 of the restarted process (delay 1m; after read crash points, and after every k for 2to1 and replicas)]; " +
+		"non-trivial = the restarted process had to change the bucket to finish (second level: the second crash happened)")
 	r.Assume("object PUT and DELETE are atomic; a crash is the loss of the process between two bucket operations, the local data dir survives as it was at that instant (or is wiped)",
 		"the store gateway is a cold meta fetcher wired as cmd/thanos/store.go evaluated on the current bucket at the current virtual time (sync lag is C34's subject)",
 		"BlocksCleaner's concurrent block deletions are serialised block by block (rig.Bkt) so that crash points are deterministic",
-		"first-level crash states are the snapshots (bucket objects with modification times, data dir, clock) taken before every mutating operation of one fault-free cycle; second-level crashes use vcrash.DieAtMut",
+		"first-level crash states are the snapshots (bucket objects with modification times, data dir, clock) taken before every mutating operation and at every read crash point of one fault-free cycle; second-level crashes use vcrash.DieAtMut / rig.Bkt.BeforeRead (the operation the process dies at and everything after fail, the data dir is copied at that instant)",
+		"local files are complete at a crash (a crash is placed at bucket operation boundaries, not inside a local file write); block download is sequential (compactBlocksFetchConcurrency = blockFilesConcurrency = 1, the flag defaults)",
 		"cmd/thanos wiring mirrored and drift-checked; downsampleBucket is a no-op for the <40h raw blocks used (drift-checked)")
 
 	tmp := t.TempDir()
@@ -602,31 +752,39 @@ func TestCheck(t *testing.T) {
 	thorough := r.Thorough()
 
 	var wmu sync.Mutex
-	worlds := map[string]*world{}
-	refs := map[string]*result{}
+	// worlds and reference cycles are built once each, different ones in parallel
+	type lazyWorld struct {
+		once sync.Once
+		w    *world
+	}
+	type lazyRef struct {
+		once sync.Once
+		ref  *result
+	}
+	worlds := map[string]*lazyWorld{}
+	refs := map[string]*lazyRef{}
 	getWorld := func(name string) *world {
 		wmu.Lock()
-		defer wmu.Unlock()
-		if w := worlds[name]; w != nil {
-			return w
+		lw := worlds[name]
+		if lw == nil {
+			lw = &lazyWorld{}
+			worlds[name] = lw
 		}
-		for _, d := range sets {
-			if d.name == name {
-				worlds[name] = buildWorld(t, wi, d, tmp, rd)
-				return worlds[name]
+		wmu.Unlock()
+		lw.once.Do(func() {
+			for _, d := range sets {
+				if d.name == name {
+					lw.w = buildWorld(t, wi, d, tmp, rd)
+					return
+				}
 			}
-		}
-		t.Fatalf("HARNESS-ERROR unknown set %s", name)
-		return nil
+			panic("HARNESS-ERROR unknown set " + name)
+		})
+		return lw.w
 	}
-	getRef := func(set, lister string) *result {
+	var getRef func(set, lister string) *result
+	buildRef := func(set, lister string) *result {
 		w := getWorld(set)
-		wmu.Lock()
-		defer wmu.Unlock()
-		key := set + "/" + lister
-		if ref := refs[key]; ref != nil {
-			return ref
-		}
 		ref := runReference(t, r, wi, w, rd, tmp, Case{Set: set, Store: lister, Comp: lister})
 		if !ref.quiescent {
 			t.Fatalf("HARNESS-ERROR set %s: the fault-free cycle does not reach quiescence", set)
@@ -635,14 +793,82 @@ func TestCheck(t *testing.T) {
 			t.Fatalf("HARNESS-ERROR set %s: %d snapshots for %d mutating operations", set, len(ref.snaps), ref.muts)
 		}
 		r.AddStates(int64(ref.states))
-		r.Note("set %s (%s lister): %d blocks, %d samples (%d distinct), fault-free cycle: %d mutating ops, %d blocks at quiescence, %d states checked",
-			set, lister, len(w.roles), w.nsamples, len(w.original), ref.muts, ref.blocks, ref.states)
-		refs[key] = &ref
+		npart := 0
+		var rdesc []string
+		for _, s := range ref.rsnaps {
+			if s.partial {
+				npart++
+			}
+			rdesc = append(rdesc, fmt.Sprintf("%s{%s}", s.op, s.work))
+		}
+		r.Note("set %s (%s lister): %d blocks, %d samples (%d distinct), fault-free cycle: %d mutating ops, %d read crash points (%d with a partly downloaded plan), %d blocks at quiescence, %d states checked",
+			set, lister, len(w.roles), w.nsamples, len(w.original), ref.muts, len(ref.rsnaps), npart, ref.blocks, ref.states)
+		if os.Getenv("VERIF_C29_POINTS") != "" {
+			r.Note("set %s read crash points: %s", set, strings.Join(rdesc, " | "))
+		}
 		return &ref
 	}
-
-	var cases []Case
+	getRef = func(set, lister string) *result {
+		key := set + "/" + lister
+		wmu.Lock()
+		lr := refs[key]
+		if lr == nil {
+			lr = &lazyRef{}
+			refs[key] = lr
+		}
+		wmu.Unlock()
+		lr.once.Do(func() { lr.ref = buildRef(set, lister) })
+		return lr.ref
+	}
 	if !r.Replaying() {
+		var pre sync.WaitGroup
+		for _, d := range sets {
+			if d.tier == 1 && !thorough {
+				continue
+			}
+			for _, l := range []string{"concurrent", "recursive"} {
+				if l == "recursive" && !thorough {
+					continue
+				}
+				pre.Add(1)
+				go func() { defer pre.Done(); getRef(d.name, l) }()
+			}
+		}
+		pre.Wait()
+		if t.Failed() {
+			return
+		}
+	}
+
+	snapOf := func(ref *result, c Case) (snap, bool) {
+		switch {
+		case c.R > 0 && c.K == 0 && c.R <= len(ref.rsnaps):
+			return ref.rsnaps[c.R-1], true
+		case c.R == 0 && c.K >= 1 && c.K <= len(ref.snaps):
+			return ref.snaps[c.K-1], true
+		}
+		return snap{}, false
+	}
+
+	var cases, mid, tail []Case
+	nFirstR := 0
+	if !r.Replaying() {
+		// read crash points first (the smaller, newer family), then the crash points at mutating operations
+		for _, d := range sets {
+			if d.tier == 1 && !thorough {
+				continue
+			}
+			ref := getRef(d.name, "concurrent")
+			for i := range ref.rsnaps {
+				for _, delay := range []int{1, 49 * 60, 25 * 60} {
+					if !thorough && delay != 1 {
+						continue
+					}
+					cases = append(cases, Case{Set: d.name, R: i + 1, Delay: delay, Disk: "kept", Store: "concurrent", Comp: "concurrent"})
+				}
+			}
+		}
+		nFirstR = len(cases)
 		for _, d := range sets {
 			if d.tier == 1 && !thorough {
 				continue
@@ -667,23 +893,81 @@ func TestCheck(t *testing.T) {
 				for k := 1; k <= rref.muts; k++ {
 					cases = append(cases, Case{Set: d.name, K: k, Delay: 25 * 60, Disk: "kept", Store: "recursive", Comp: "recursive"})
 				}
-			}
-		}
-		if thorough {
-			// second-level crash points: the number of operations of the restarted process is found by a probe run
-			for _, name := range []string{"2to1", "overlap-vertical", "replicas", "4to1"} {
-				ref := getRef(name, "concurrent")
-				for k := 1; k <= ref.muts; k++ {
-					c := Case{Set: name, K: k, Delay: 1, Disk: "kept", Store: "concurrent", Comp: "concurrent"}
-					probe := runCase(t, r, wi, getWorld(name), rd, tmp, c, ref.snaps[k-1])
-					for k2 := 1; k2 <= probe.muts; k2++ {
-						c.K2 = k2
-						cases = append(cases, c)
-					}
+				for i := range rref.rsnaps {
+					cases = append(cases, Case{Set: d.name, R: i + 1, Delay: 25 * 60, Disk: "kept", Store: "recursive", Comp: "recursive"})
 				}
 			}
 		}
+		// second-level crash points: the operations and the read crash points of the restarted process are found by a
+		// probe run (in parallel). Case.Delay is the pause before EVERY restart: with 25h the restart after the second
+		// crash finds the deletion marks written by the first restarted process older than both ignore-deletion-marks
+		// delays (nothing repairs a wrong marking any more); with 1m they are still younger.
+		var firsts []Case
+		first := func(set string, k, rp, delay int) {
+			firsts = append(firsts, Case{Set: set, K: k, R: rp, Delay: delay, Disk: "kept", Store: "concurrent", Comp: "concurrent"})
+		}
+		if thorough {
+			for _, name := range []string{"2to1", "overlap-vertical", "replicas", "4to1"} {
+				ref := getRef(name, "concurrent")
+				for i := range ref.rsnaps {
+					first(name, 0, i+1, 25*60)
+					first(name, 0, i+1, 1)
+				}
+				for k := 1; k <= ref.muts; k++ {
+					first(name, k, 0, 1)
+					if name == "2to1" {
+						first(name, k, 0, 25*60)
+					}
+				}
+			}
+		} else {
+			// quick: the read crash points of one set that leave a partly downloaded plan in the work dir
+			ref := getRef("2to1", "concurrent")
+			for i, s := range ref.rsnaps {
+				if s.partial {
+					first("2to1", 0, i+1, 25*60)
+				}
+			}
+		}
+		second := make([][]Case, len(firsts))
+		var pw sync.WaitGroup
+		sem := make(chan struct{}, runtime.GOMAXPROCS(0))
+		for i, c := range firsts {
+			pw.Add(1)
+			sem <- struct{}{}
+			go func() {
+				defer func() { <-sem; pw.Done() }()
+				ref := getRef(c.Set, c.Comp)
+				s, _ := snapOf(ref, c)
+				// second-level READ crash points: thorough, delay 1m, after every read crash point and (2to1, replicas) after
+				// every mutating operation
+				track := thorough && c.Delay == 1 && (c.R > 0 || c.Set == "2to1" || c.Set == "replicas")
+				probe := runCase(t, r, wi, getWorld(c.Set), rd, tmp, c, s, track)
+				for k2 := 1; k2 <= probe.muts; k2++ {
+					c2 := c
+					c2.K2 = k2
+					second[i] = append(second[i], c2)
+				}
+				for _, r2 := range probe.rpts {
+					c2 := c
+					c2.R2 = r2
+					second[i] = append(second[i], c2)
+				}
+			}()
+		}
+		pw.Wait()
+		for _, l := range second {
+			if thorough {
+				tail = append(tail, l...)
+			} else {
+				mid = append(mid, l...)
+			}
+		}
 	}
+	if len(mid) > 0 {
+		cases = append(cases[:nFirstR:nFirstR], append(mid, cases[nFirstR:]...)...)
+	}
+	cases = append(cases, tail...)
 	gen := func(yield func(Case) bool) {
 		for _, c := range cases {
 			if !yield(c) {
@@ -694,15 +978,25 @@ func TestCheck(t *testing.T) {
 	rig.ForEach(r, gen, func(c Case) {
 		w := getWorld(c.Set)
 		ref := getRef(c.Set, c.Comp)
-		if c.K < 1 || c.K > len(ref.snaps) {
-			r.Note("crash point %d beyond the %d operations of the cycle: %+v", c.K, len(ref.snaps), c)
+		s, ok := snapOf(ref, c)
+		if !ok {
+			r.Note("crash point beyond the %d operations / %d read crash points of the cycle: %+v", len(ref.snaps), len(ref.rsnaps), c)
 			return
 		}
 		r.Sample(c)
-		res := runCase(t, r, wi, w, rd, tmp, c, ref.snaps[c.K-1])
+		res := runCase(t, r, wi, w, rd, tmp, c, s, false)
 		r.AddStates(int64(res.states))
-		if res.muts > 0 && (c.K2 == 0 || res.died2) {
+		if (c.K2 == 0 && c.R2 == 0 && res.muts > 0) || res.died2 {
 			r.Nontrivial(fmt.Sprint(c))
+			if c.R > 0 {
+				r.Add("read_crash_cases", 1)
+				if s.partial {
+					r.Add("read_crash_cases_with_partly_downloaded_plan", 1)
+				}
+			}
+			if c.R2 > 0 {
+				r.Add("second_level_read_crash_cases", 1)
+			}
 		}
 		if res.quiescent {
 			r.Outcome(fmt.Sprintf("%s: quiescent with %d blocks", c.Set, res.blocks))
